@@ -92,7 +92,7 @@ def gen_wellformed(rng, enz, nmods=None, closing=None):
         for e in [v] + ms:
             if rng.random() < 0.7:
                 n = len(e["word"])
-                refs = list(dict.fromkeys(100 + rng.randrange(20) for _ in range(rng.choice([0, 1, 2, 3, 11]))))
+                refs = rng.sample(range(100, 120), rng.choice([0, 1, 2, 3, 11, 13]))
                 feats = [f for f in gen.gen_features(rng, n, rng.choice([1, 2, 4]), allow_cites=len(refs))
                          if all(0 <= p[0] <= p[1] <= n for p in f.parts)]
                 e["refs"] = refs
